@@ -179,11 +179,13 @@ class Discharger(object):
             s.add(z3.Xor(g1, g2))
             res = s.check()
             if res != z3.unsat and pc:
-                # retry under the path condition
+                # retry under the part of the path condition that talks about the same variables
+                vs = self.varset(g1) | self.varset(g2)
                 s = z3.Solver()
                 s.set('timeout', 10000)
                 for x in pc:
-                    s.add(x)
+                    if not vs.isdisjoint(self.varset(x)):
+                        s.add(x)
                 s.add(z3.Xor(g1, g2))
                 res = s.check()
             self.stats['solver_s'] += time.time() - t
@@ -305,6 +307,42 @@ class Discharger(object):
                     self.cut_uf[self.find(x)] = self.find(y)
                     only_b.remove(y)
                     break
+
+    def unify_all(self, pc, t):
+        """identify equal cuts among those occurring in t (same variable sets first)"""
+        cv = self.ex.fc.cutvars
+        groups = {}
+        for c in dict.fromkeys(self.find(c) for c in self.cuts_in(t)):
+            groups.setdefault(self.int_varset(cv[c][1]), []).append(c)
+        for vs, cs in groups.items():
+            reps = []
+            for c in cs:
+                merged = False
+                for r in reps:
+                    if self.find(r) == self.find(c):
+                        merged = True
+                        break
+                    iv1, iv2 = cv[c][1], cv[r][1]
+                    if isinstance(iv1, GSum) and isinstance(iv2, GSum):
+                        if iv1.range(True) != iv2.range(True) and len(iv1.terms) != len(iv2.terms):
+                            continue
+                    v, _ = self.prove_int_equal_fast(pc, iv1, iv2)
+                    if v:
+                        self.cut_uf[self.find(c)] = self.find(r)
+                        merged = True
+                        break
+                if not merged:
+                    reps.append(c)
+
+    def prove_int_equal_fast(self, pc, a, b, w=64):
+        """syntactic difference or increment matching only (no monolithic fallback)"""
+        ga, gb = gs_from(a, w), gs_from(b, w)
+        if ga is None or gb is None:
+            return False, None
+        d = gs_add(ga, gb, -1)
+        if isinstance(d, int):
+            return canon(d, w, False) == 0, None
+        return self.match_increments(pc, d), None
 
     def int_varset(self, iv):
         if isinstance(iv, GSum):
@@ -507,7 +545,20 @@ class Discharger(object):
             if info is not None and info[0] == 'eqz':
                 if self.match_increments(obl.pc, info[1]):
                     return Result(obl, 'unsat', 'increment matching', None, time.time() - t0, self.stats['queries'] - q0)
-        asserts = list(obl.pc) + ([] if cond is True else [cond])
+        if isinstance(cond, z3.ExprRef) and self.cuts_in(cond):
+            # counts computed twice (implementation / reference model) are identified first
+            self.unify_all(obl.pc, cond)
+            cond = self.subst_cuts(cond)
+            cond = z3.simplify(cond)
+            if z3.is_false(cond):
+                return Result(obl, 'unsat', 'after cut unification', None, time.time() - t0, self.stats['queries'] - q0)
+        pcl = list(obl.pc)
+        if any(self.cuts_in(x) for x in pcl):
+            for x in pcl:
+                if self.cuts_in(x):
+                    self.unify_all(obl.pc, x)
+            pcl = [self.subst_cuts(x) for x in pcl]
+        asserts = pcl + ([] if cond is True else [cond])
         cuts = []
         for a in asserts:
             cuts += self.cuts_in(a)
@@ -517,6 +568,20 @@ class Discharger(object):
                 rv, iv = cv[c]
                 asserts.append(rv == z3.ToReal(z3.BV2Int(tobv(iv, 64), True)))
             asserts += self.ex.fc.side
+        # first try with every library-function application abstracted by a fresh variable (identical applications share
+        # one variable): unsat of the abstraction implies unsat of the original
+        if self.ex.fc.ufs:
+            apps = {}
+            for a in asserts:
+                if isinstance(a, z3.ExprRef):
+                    for x in self.uf_apps(a):
+                        apps.setdefault(x.get_id(), x)
+            if apps:
+                subs = [(x, z3.Real('ufa!%d' % i)) for i, x in apps.items()]
+                abs_asserts = [z3.substitute(a, *subs) if isinstance(a, z3.ExprRef) else a for a in asserts]
+                r, m = self.check(abs_asserts)
+                if r == z3.unsat:
+                    return Result(obl, 'unsat', 'uf-abstraction', None, time.time() - t0, self.stats['queries'] - q0)
         r, m = self.check(asserts, want_model=True)
         return Result(obl, str(r), '', m, time.time() - t0, self.stats['queries'] - q0)
 
